@@ -93,6 +93,11 @@ func (p *pipe) read(b []byte) (int, error) {
 		if len(b) == 0 {
 			return 0, nil
 		}
+		// (as with a real socket, a read deadline that has passed fails the call before it looks
+		// for data: bytes that are waiting do not help)
+		if !p.rdeadline.IsZero() && !time.Now().Before(p.rdeadline) {
+			return 0, timeoutError{}
+		}
 		if len(p.recv) > 0 {
 			n := copy(b, p.recv)
 			p.recv = p.recv[n:]
